@@ -620,7 +620,10 @@ class RTDCBase(abc.ABC):
         if downsample < 0:
             raise ValueError("`downsample` must be zero or positive!")
 
-        downsample = int(downsample)
+        # Never request more points than there are events to choose from
+        # (padding beyond that is impossible, and the request is a 32 bit
+        # count in `downsample_grid`).
+        downsample = min(int(downsample), int(np.sum(self.filter.all)))
         xax = xax.lower()
         yax = yax.lower()
 
